@@ -666,7 +666,10 @@ def correspond(ctx):
                         ctx.dist('reread-graph-only(valence-invalid)')
                     ctx.dist('reread:' + ('iso' if not d else 'DIFF'))
                     if d:
-                        ctx.cov['disagreements_checked'] += 1
+                        if flanked_unlabelled_class(d, m):
+                            ctx.dist('known-finding-cases(unlabelled-flanked-double-bond)')
+                        else:
+                            ctx.cov['disagreements_checked'] += 1
                         inp = {'kind': 'roundtrip', 'mol': wire.mol_to_ints(m), 'spec': spec, 'draw_seed': seed, 'first': first, 'name': name}
                         ctx.fail(signature_of(d, m, spec), f'{name} [{spec!r}] written {text!r} re-reads with differences {d[:5]}', inp)
                 else:
@@ -739,7 +742,41 @@ def ring_diene_class(diffs, mol):
     return True
 
 
+def flanked_unlabelled_class(diffs, mol):
+    """known finding C02/unlabelled-flanked-double-bond: every difference is a label that APPEARS (None -> bool) on a
+    stereogenic double bond which is unlabelled in the original and both of whose ends are bonded, through a single bond
+    to a substituent of its stereo environment, to an end of a LABELLED double bond: both flanking single bonds then
+    carry a direction mark that belongs to the neighbours, and SMILES has no way to leave the bond between them unspecified"""
+    if not diffs or not all(d.startswith('ct-presence@') and ':None->' in d for d in diffs):
+        return False
+    try:
+        ctt = mol._stereo_cis_trans_terminals
+        ctc = mol._stereo_cis_trans_centers
+        sct = mol.stereogenic_cis_trans
+
+        def labelled_end(z):
+            if z not in ctc or ctt.get(z) is None or z not in ctt[z]:
+                return False
+            i, j = ctc[z]
+            return mol._bonds[i][j].stereo is not None
+
+        for d in diffs:
+            x, y = (int(v) for v in d.split('@')[1].split(':')[0].split('-'))
+            if mol._bonds[x][y].stereo is not None:
+                return False
+            n, m = ctt[x]
+            env = sct[(n, m)]
+            for end, other in ((n, m), (m, n)):
+                if not any(z in env and int(mol._bonds[end][z]) == 1 and labelled_end(z) for z in mol._bonds[end]):
+                    return False
+    except Exception:  # noqa
+        return False
+    return True
+
+
 def signature_of(diffs, mol, spec=''):
+    if flanked_unlabelled_class(diffs, mol):
+        return 'C02/unlabelled-flanked-double-bond'
     if ring_diene_class(diffs, mol):   # fixed finding (891fb3c): a recurrence is reported under its own signature
         return 'C02/ring-diene-cis-trans'
     if 'm' in spec and any(d.startswith('reader-raises') for d in diffs) and max(mol._atoms) > 9999:
@@ -1007,6 +1044,23 @@ def probe(inp):
             return True, f'writer raises: {line}'
         d = judge(m, text, order, inp.get('spec', ''))
         return bool(d), f'written {text!r}; differences after re-reading: {d[:4]}'
+    if kind == 'unlabel-roundtrip':
+        from chython import smiles
+        m = smiles(inp['smiles'])
+        lab = [(x, y) for x, y, b in m.bonds() if b.stereo is not None]
+        for i in inp['unlabel']:
+            x, y = lab[i]
+            m._bonds[x][y]._stereo = None
+        m.flush_cache()
+        seen = []
+        for spec, seeds in (('', [0]), ('r', range(inp.get('seeds', 60)))):
+            for seed in seeds:
+                line, text, order, _ = real_write(m, spec, seed)
+                d = judge(m, text, order, spec) if text is not None else ['writer-raises']
+                if d:
+                    seen.append((text, d[:2]))
+        return bool(seen), (f'{len(seen)} of the written texts re-read with a label on the unlabelled bond, e.g. {seen[0]}' if seen
+                            else 'every written text re-reads without a label on the unlabelled bond')
     if kind == 'order-first':
         m, _ = wire.ints_to_mol(inp['mol'], calc=True)
         order, t_str, t_fmt, err = order_first(m)
